@@ -288,6 +288,10 @@ def k2_fiber_new(res, tier):
         ss = fr0.field(e, FW.cfx['stack_start'], FW.cf_sd.fields[FW.cfx['stack_start']][1]).get(e)
         e.check(isinstance(ss, SeqPtr) and ss.seq is stack.seq and e.is_valid(ss.idx == 0), 'Fiber::new: the frame starts at slot 0')
         e.check(isinstance(fp, SeqPtr) and fp.seq is frames.seq and e.is_valid(fp.idx == 0), 'Fiber::new: the frame pointer designates that frame')
+        if 'awaited' in FW.ix:
+            aw = r.f[FW.ix['awaited']].get(e)
+            ptag = parent.tag if not isinstance(parent.tag, int) else bv(parent.tag, 64)
+            e.check(to_z3_bool(aw) == (ptag == 1), 'Fiber::new: a fiber created with a parent (the body of an imported module) is marked as awaited by it (C17.K4)')
         return {'fn': 'new', 'moved': True}
     _creation_finish(res, e, e.explore(path), 'C06.K2:fiber_new:', dict(kind='lay', source=F29_SRC, expect_stdout='300\n'))
 
@@ -356,6 +360,9 @@ def k2_fiber_split(res, tier):
         e.check(isinstance(ptop, SeqPtr) and ptop.seq is st.stack and e.is_valid(ptop.idx == top_start), 'split: the parent drops the callee and its arguments')
         e.check(e.is_valid(pfr.len == st.nf - 1), 'split: the parent loses exactly the moved frame')
         e.check(isinstance(pfp, SeqPtr) and e.is_valid(pfp.idx == st.nf - 2), 'split: the parent\'s previous frame is current again')
+        if 'awaited' in FW.ix:
+            aw = ch.f[FW.ix['awaited']].get(e)
+            e.check(z3.Not(to_z3_bool(aw)), 'split: a launched fiber is not awaited by its parent (C17.K4)')
         return {'fn': 'split', 'frames': st.nf, 'moved': True}
     results = [r for r in e.explore(path) if not (r.kind == 'ok' and r.info is None)]
     for r in results:
